@@ -244,7 +244,7 @@ func (s *Search) alphaBeta(b *board.Board, alpha, beta Score, d, ply Depth, nTyp
 	staticEval := Inv
 
 	if !inCheck {
-		staticEval = eval.Eval(b, &eval.Coefficients)
+		staticEval = staticEvaluation(b)
 
 		oldScore := Inv
 		if old, ok := s.hstack.Top(1); ok && old.Score != Inv {
@@ -497,6 +497,13 @@ func lmr(d Depth, mCount int, improving bool, nType Node) Depth {
 	return Clamp(d-1-Depth(value), 0, d-1)
 }
 
+// staticEvaluation is the evaluation of b kept strictly inside the non-mate
+// score range. With enough material on the board eval.Eval exceeds Inf, which
+// the search would then mistake for a mate score.
+func staticEvaluation(b *board.Board) Score {
+	return Clamp(eval.Eval(b, &eval.Coefficients), -Inf+MaxPlies+1, Inf-MaxPlies-1)
+}
+
 // Quiescence resolves the position to a quiet one, and then evaluates.
 func (s *Search) quiescence(b *board.Board, alpha, beta Score, ply Depth, opts *Options) Score {
 
@@ -543,7 +550,7 @@ func (s *Search) quiescence(b *board.Board, alpha, beta Score, ply Depth, opts *
 		}
 	}
 
-	standPat := eval.Eval(b, &eval.Coefficients)
+	standPat := staticEvaluation(b)
 
 	if !inCheck && standPat >= beta {
 		return standPat
